@@ -20,7 +20,9 @@ CHECKS = {
                 design='DESIGN.md section 4 C02'),
     'C03': dict(technique='TLA+ model checking (TLC) on checksummed-target programs + behaviour replay comparing checksums and rebuild sets',
                 design='DESIGN.md section 4 C03'),
-    'C05': dict(technique='TLA+ model checking (TLC): FailPropagates/NoCleanOverFailed + behaviour replay incl. nondeterministic alternatives',
+    'C05': dict(technique='TLA+ model checking (TLC): FailPropagates/NoCleanOverFailed + behaviour replay incl. nondeterministic alternatives; '
+                          'two invocations at once in RedoSys (a failure learnt while a target is locked by the other command), real pairs '
+                          'of commands matched against the specification behaviours',
                 design='DESIGN.md section 4 C05'),
     'C11': dict(technique='TLA+ model checking (TLC): action property NoTrample + behaviour replay comparing file bytes and roles',
                 design='DESIGN.md section 4 C11'),
@@ -46,7 +48,9 @@ CHECKS = {
     'C08': dict(engine='RedoJobs', design='DESIGN.md section 4 C08',
                 technique='TLA+ model checking (TLC) of the token protocol RedoJobs (Conservation, MaxWork, ExitBalanced, '
                           'QuiescentExact) + trace validation: token events of real parallel builds checked by TLC against '
-                          'TraceJobs, pipes counted by the harness acting as parent jobserver',
+                          'TraceJobs, pipes counted by the harness acting as parent jobserver + RedoSetup: the start-up decision '
+                          '(MAKEFLAGS / REDO_CHEATFDS / -j) evaluated by TLC on 166 665 configurations and compared with a real redo '
+                          'given descriptors 60-63',
                 level='TLC checks the token invariants on every interleaving of small process trees (own and inherited '
                       'jobserver, an outside world taking tokens, cheating, failing jobs, lock waits). The hooked redo then '
                       'runs real parallel builds (-j1..8, harness-owned jobserver, log capture on/off, failures); every token '
@@ -57,7 +61,8 @@ CHECKS = {
     'C09': dict(engine='RedoJobs', design='DESIGN.md section 4 C09',
                 technique='TLA+ model checking (TLC) of the scheduler at poll-cycle granularity (NoPanic, NotHung, '
                           'AllSucceedExit0 over every ready set per select()) + real builds with gate-delayed select() wake-ups, '
-                          'duplicate targets and contending invocations, traces validated against TraceJobs',
+                          'duplicate targets and contending invocations, traces validated against TraceJobs + RedoExec: the first-line '
+                          'rule of .do files as an input dimension of job start',
                 level='TLC explores every interleaving and every coincidence of child exits, token arrivals and timer expiries '
                       'per poll cycle on small process trees, with every assert!() of the code as a guard; real builds are then '
                       'driven into the same corners (select() wake-ups delayed through a gate so that events coincide, two '
@@ -66,8 +71,10 @@ CHECKS = {
                 note='trusted: TLC, the reading of run()/block_on in RedoJobs (bound by the trace validation of the token '
                      'layer; the control-flow layer is bound only through exit status / termination of the real runs)'),
     'C06': dict(engine='RedoSys', design='DESIGN.md section 4 C06',
-                technique='TLA+ model checking (TLC) of ScriptMutex/HoldThroughRecord/ScriptUnderLock on RedoSys at -j2/-j3 + trace '
-                          'validation: lock, script and commit events of several concurrent invocations checked by TLC against TraceLocks',
+                technique='TLA+ model checking (TLC) of ScriptMutex/HoldThroughRecord/ScriptUnderLock on RedoSys at -j2/-j3 and with two '
+                          'commands in flight (every interleaving of two invocations; real pairs of commands, half of them under controlled '
+                          'scheduling, matched against the specification behaviours) + trace validation: lock, script and commit events '
+                          'of several concurrent invocations checked by TLC against TraceLocks',
                 level='TLC checks on every interleaving of parallel process trees that two scripts of one target never coexist and '
                       'that the starter holds the lock from the decision until the result is committed. Then 2-6 top-level commands '
                       'are started together on random DAGs; every lock grant/release, decision, script begin/end, result record and '
@@ -78,7 +85,8 @@ CHECKS = {
     'C16': dict(engine='RedoDb', design='DESIGN.md section 4 C16',
                 technique='TLA+ model checking (TLC) of RedoDb (SQLite WAL rules + transaction scripts of the commands) + trace '
                           'validation: transaction events of concurrent real commands replayed by TLC against TraceDb, final database '
-                          'compared with the committed state',
+                          'compared with the committed state + RedoSys with two commands (or a build and a query) in flight: exit '
+                          'statuses, query output and every row and edge left behind must be those of one specification behaviour',
                 level='TLC checks NoSpuriousFailure, NoLostState, RunIdsDistinct and NotStuck on every interleaving of the database '
                       'steps of 2-4 concurrent builds and queries, with and without an existing database (the pinned start-up is kept '
                       'as a mode and must produce its counterexamples). 3-10 real commands are then started together, half of the time '
@@ -90,7 +98,8 @@ CHECKS = {
     'C13': dict(engine='RedoPaths', design='DESIGN.md section 4 C13',
                 technique='TLA+ (TLC) evaluation of the candidate/argument rule RedoPaths.Candidates on every target of the family with '
                           'its order laws + conformance: possible_do_files in process, redo-whichdo and real builds echoing cwd/$1/$2/$3, '
-                          'and add/remove-candidate histories, all compared with the TLC table',
+                          'and add/remove-candidate histories, all compared with the TLC table + RedoExec: the interpreter (first line) '
+                          'rule evaluated by TLC on every line of up to 3-4 tokens, real builds compared with the predicted command line',
                 level='TLC enumerates every target of the family, checks the order and argument laws on the specification and exports '
                       'the expected candidate list with script directory, $1 and $2; the real enumeration is compared in process for '
                       'every target, and for a sample covering every structural class the binaries are run on a materialised project '
@@ -155,8 +164,14 @@ def main():
                                'start-up, creation race); TLC; TraceDb.tla validates recorded transaction events'},
             {'name': 'RedoSys', 'path': 'spec/RedoSys.tla',
              'serves_properties': sorted(k for k, c in CHECKS.items() if c.get('engine', 'RedoSys') == 'RedoSys'),
-             'kind_free_text': 'TLA+ specification of the whole build system (fs, db, locks, process tree); TLC; '
-                               'behaviours exported as JSON and replayed by lib/harness.py'},
+             'kind_free_text': 'TLA+ specification of the whole build system (fs, db, locks, process tree, one or two commands in '
+                               'flight); TLC; behaviours exported as JSON and replayed by lib/harness.py'},
+            {'name': 'RedoExec', 'path': 'spec/RedoExec.tla', 'serves_properties': ['C09', 'C13'],
+             'kind_free_text': 'TLA+ transcription of how a .do file is executed (first-line / interpreter rule) with its laws; '
+                               'MC_Exec enumerates first lines, lib/funcheck.py compares real builds with the predicted command line'},
+            {'name': 'RedoSetup', 'path': 'spec/RedoSetup.tla', 'serves_properties': ['C08'],
+             'kind_free_text': 'TLA+ transcription of parse_makeflags and JobServer::setup as a decision table with its laws; '
+                               'MC_Setup enumerates configurations, lib/funcheck.py compares a real redo (JsSetup event, exit status)'},
         ],
         'checks': [],
         'not_applicable': [{'property_id': k, 'reason': v} for k, v in sorted(PENDING.items()) if k not in CHECKS],
